@@ -52,6 +52,14 @@ package config
 //@   observe ch := call ComposeDecodeHookFunc
 //@   observe dec := call Decode
 //@   observe as := call AllSettings
+// the decoder works on a copy of the default configuration: whatever no source mentions keeps its default
+//@   at call NewDecoder [decodes-onto-defaults] cfg.DBPath == DefaultConfig.DBPath && cfg.ChainID == DefaultConfig.ChainID && cfg.P2P == DefaultConfig.P2P && cfg.Node == DefaultConfig.Node
+//@                       && cfg.DA == DefaultConfig.DA && cfg.RPC == DefaultConfig.RPC && cfg.Log == DefaultConfig.Log && cfg.Signer == DefaultConfig.Signer
+//@   at call NewDecoder [decodes-onto-default-instrumentation] cfg.Instrumentation != nil && DefaultConfig.Instrumentation != nil ==> cfg.Instrumentation.Prometheus == DefaultConfig.Instrumentation.Prometheus
+//@                       && cfg.Instrumentation.PrometheusListenAddr == DefaultConfig.Instrumentation.PrometheusListenAddr && cfg.Instrumentation.MaxOpenConnections == DefaultConfig.Instrumentation.MaxOpenConnections
+//@                       && cfg.Instrumentation.Namespace == DefaultConfig.Instrumentation.Namespace && cfg.Instrumentation.Pprof == DefaultConfig.Instrumentation.Pprof
+//@                       && cfg.Instrumentation.PprofListenAddr == DefaultConfig.Instrumentation.PprofListenAddr
+//@   at call NewDecoder [instrumentation-section-kept] (cfg.Instrumentation == nil) == (DefaultConfig.Instrumentation == nil)
 //@   ensures [decode-hooks] ch.count == 1 && len(ch.arg0) == 3
 //@   ensures [decodes-all-settings] err == nil ==> dec.count == 1 && dec.res0 == nil && as.count == 1 && as.arg0 == v
 //@   ensures [home] err == nil ==> cfg.RootDir == home
